@@ -21,7 +21,7 @@ meta = {
     "needs_to_manifest": readme.strip(),
     "confirmed_in_scratch_worktree": confirm,
     "commands_run": ["tools/confirm_mutant.sh /tmp/mut/%s  (git worktree of /repo HEAD: git apply, go build ./..., pinned suite modules, demo.sh with and without the change)" % name,
-                     "tools/try_mutant.sh seeded/%s/patch.diff %s %s  (git -C /repo apply; ./check %s --tier %s; git -C /repo checkout -- .)" % (name, prop, tier, prop, tier)],
+                     "tools/try_mutant.sh seeded/%s/patch.diff %s %s  (scratch copy of /repo + git apply there; VERIF_REPO=<copy> ./check %s --tier %s; copy removed)" % (name, prop, tier, prop, tier)],
     "detected_by_check": detected, "tier": tier, "check_report": report,
 }
 json.dump(meta, open(os.path.join(dst, "meta.json"), "w"), indent=1)
